@@ -266,6 +266,30 @@ func c15(r *core.Run) {
 			r.Bad("G1", core.FuncName(fn), what+"-enqueued-in-resource-group", p.Pos(fn.Pos()), what+" does not go through the per-group queue")
 		}
 	}
+	// every message that reached the event's channel is forwarded: the listener waits on that channel
+	// alone and leaves its loop only when the channel ends - a second exit (its own timer, a stop
+	// channel picked at random by select) abandons the requests still buffered, which are then never
+	// answered although they were received while the event was active
+	{
+		other := ""
+		for _, h := range p.Helpers(lst) {
+			for _, in := range instrsOf(h) {
+				sel, ok := in.(*ssa.Select)
+				if !ok {
+					continue
+				}
+				for _, st := range sel.States {
+					if !strings.HasSuffix(core.TypeName(st.Chan.Type()), ".Msg") {
+						other = "select on " + core.TypeName(st.Chan.Type()) + " at " + p.InstrPos(sel)
+					}
+				}
+				if !sel.Blocking {
+					other = "non-blocking select at " + p.InstrPos(sel)
+				}
+			}
+		}
+		r.Check(other == "", "R1", core.FuncName(lst), "listener-leaves-only-with-the-channel", p.Pos(lst.Pos()), "the listener waits on the query channel alone", "the query listener can leave its loop while messages are still in the event's channel ("+other+"): query requests received while the event is active are dropped without a response")
+	}
 	chkEnq(lst, "query-request", func(cl *ssa.Function) bool {
 		for _, c := range core.Calls(cl) {
 			if c.Common().StaticCallee() == hq {
